@@ -494,4 +494,4 @@ def _closure_ord(d):
 
 def short(defname):
     """Readable short form: strip module paths inside a def name."""
-    return re.sub(r"(?:[a-z_0-9]+::)+(?=[A-Za-z_{<])", "", defname)
+    return re.sub(r"(?<![A-Za-z0-9_])(?:[a-z_0-9]+::)+(?=[A-Za-z_{<])", "", defname)
